@@ -22,7 +22,8 @@ func init() {
 			"R3 a producer return that is control-dependent on an `err != nil` test is preceded by a yield of that error, and a Seq-returning function bailing out under err != nil returns ErrorSeq(err): an iteration ends with an error, never silently short; " +
 			"R4 continuation key: the client pager's next request takes `last` from the final element of the page just parsed, stops only on a short page, and the server's Link is built from the final element of the truncated page; " +
 			"R5 the start-after cursor crosses the select, debug and unify wrappers unchanged (Sub: translated, decided under C13.R3). " +
-			"R5 the start-after cursor reaches the request URL only through url.Values / url.QueryEscape.",
+			"R5 the start-after cursor reaches the request URL only through url.Values / url.QueryEscape. " +
+			"R6 listing iterators are re-runnable: the returned iterator value assigns to no variable (and through no pointer) of the call that created it, and a request captured by the client's pager is never written through; R7 the server cuts a page at the requested n, never at a limit derived from MaxListPageSize.",
 		NotDecided: "ascending order, completeness across pages and de-duplication as value facts (which items a listing contains for given contents, page sizes and start points) are not decided; only the protocol and plumbing clauses above are.",
 		Technique:  "static analysis: CFG path search (no-yield-after-stop typestate), SSA provenance of sorted slices and continuation keys",
 	})
